@@ -213,6 +213,8 @@ func RaftNode.CreateBackup
   requires n.balloon != nil && !isnil(n.db) && !isnil(n.log)
   modifies everything, backupCalls, lastBackupMeta
   ensures C16/one-backup: backupCalls == old(backupCalls) + 1
+  // the backup records the version the log is at: the last version issued (counter - 1), in decimal
+  ensures C16/records-the-log-version: lastBackupMeta == decstr(old(n.balloon.version) - 1)
 func RaftNode.DeleteBackup
   props C16
   requires !isnil(n.db) && !isnil(n.log)
@@ -235,6 +237,8 @@ func RaftNode.FetchSnapshot.$1.$1
   ensures C09/ships-only-the-continuation: result_0 ==> lastDecodeOK && lastMetaPrev <= old(lastSnapshotAppliedVersion) && lastSnapshotAppliedVersion == lastMetaNew && (lastMetaNew > old(lastSnapshotAppliedVersion) || old(lastSnapshotAppliedVersion) == 0)
   // a batch that continues the sequence is never skipped
   ensures C09/continuation-is-shipped: lastDecodeOK && lastMetaPrev <= old(lastSnapshotAppliedVersion) && lastMetaNew > old(lastSnapshotAppliedVersion) ==> result_0 && isnil(result_1)
+  // a node that has nothing (L == 0) is sent the very first batch, whose metadata is (0,0)
+  ensures C09/first-batch-reaches-an-empty-node: lastDecodeOK && old(lastSnapshotAppliedVersion) == 0 && lastMetaPrev == 0 && lastMetaNew == 0 ==> result_0 && isnil(result_1)
   // what is not shipped does not move L
   ensures C09/refusal-keeps-position: !result_0 ==> lastSnapshotAppliedVersion == old(lastSnapshotAppliedVersion)
 
